@@ -187,6 +187,29 @@ theorem context_src_line (e : Extractor) (l : Line) :
   · simp [ctxGetKey, C02.getKey, ctxOf]
   · simp only [ctxGetKey, C02.getKey, ctxOf, h1, if_false, if_true]
 
+/-- The JSON views `{.}`, `{#}`, `{.#}` inside an ignore or extract expression are property C16's
+    `json(named, numbered)` of the line's OWN matcher result and bytes (named groups in sorted order, then the
+    numbered groups), so expressions using them are classified by `processLine` like any other. -/
+theorem context_json_keys (e : Extractor) (l : Line) :
+    ctxGetKey (ctxOf e l) (ascii ".") = C16.json true false e.names (e.matcher l.text) l.text ∧
+    ctxGetKey (ctxOf e l) (ascii "#") = C16.json false true e.names (e.matcher l.text) l.text ∧
+    ctxGetKey (ctxOf e l) (ascii ".#") = C16.json true true e.names (e.matcher l.text) l.text := by
+  have a1 : ascii "." = [0x2e] := by decide +kernel
+  have a2 : ascii "#" = [0x23] := by decide +kernel
+  have a3 : ascii ".#" = [0x2e, 0x23] := by decide +kernel
+  have a4 : ascii "#." = [0x23, 0x2e] := by decide +kernel
+  have s1 : ascii "src" = [115, 114, 99] := by decide +kernel
+  have s2 : ascii "line" = [108, 105, 110, 101] := by decide +kernel
+  refine ⟨?_, ?_, ?_⟩ <;>
+    simp [ctxGetKey, C02.getKey, ctxOf, C16.getKeyJson, a1, a2, a3, a4, s1, s2]
+
+/-- Non-vacuity: with the harness matcher with named groups, `{.#}` of the line `k:v` is the JSON object of the
+    three named groups (sorted) followed by the numbered ones, and an ignore expression over it is evaluated. -/
+example :
+    (ctxGetKey (ctxOf { exampleExtractor with matcher := harnessIndicesN, names := harnessNamesN } ⟨0, 1, ascii "k:v"⟩) (ascii ".#")).toOption
+      = some (ascii "{\"all\": \"k:v\", \"key\": \"k\", \"val\": \"v\", \"0\": \"k:v\", \"1\": \"v\", \"2\": \"k\"}") := by
+  decide +kernel
+
 /-- The classification clause of the property, for every configuration and every line: the line is
     unmatched iff the matcher finds nothing; otherwise it is ignored iff SOME ignore expression is truthy
     for THAT line (its own groups, source name and line number) or the extracted key is empty, and matched
